@@ -671,3 +671,27 @@ Theorem c15_clear_after_exact : forall c, clear_after_ok c = true -> forall afte
 Proof. exact clear_after_exact. Qed.
 Theorem c15_clear_after_ge_refuted : clear_after_ok CGe = false /\ clears CGe 0 0 = true.
 Proof. exact clear_after_ge_refuted. Qed.
+
+(** ** Round 5: THE WHOLE PROPERTY IN ONE STATEMENT over the objects regenerated from the source on this run.
+    [c15_generated_objects_ok cd q canon] (Fmt/VtfC15WholeProofs.v) is the conjunction of the boolean premises of the part
+    theorems, instantiated with the generated record formats and flag expressions, side lists, loop nests, effect tables and
+    exits by exception of the Frame methods, chain configuration, pixel paths, bounds tests and filter terms, and one generated
+    codec [cd] with its specification [q] (the identity on the used channels for the formats with 8 bits per channel:
+    c15_spec_rgba ...; the documented quantisation otherwise: c15_spec_565 ...) and canonical form [canon].  The check
+    discharges it in the kernel for every writable format it has a specification for (instance obligations
+    [all_premises_of_c15_property_hold_for_the_generated_objects_and_codec_<format>]; the two 565 formats are carved out by
+    the known finding rgb565-rb-swap, the two bluescreen formats have their own theorems above).  Then, for files written by
+    the model of save() with these objects: metadata, resources, sheet and thumbnail come back exactly and every frame's
+    pixels are the specified quantisation (7.3+ and before); storing loaded pixels again changes nothing; save() writes for
+    every mipmap level the file's bytes / the data / the average of the level above, and a rejected call in between changes
+    this no more than load() does and leaves what the frame shows untouched; every pixel access path accepts exactly the
+    coordinates of the frame and stays inside the array; generated mipmaps have halved sides and are block means.
+    Semantic hypotheses that remain (visible inside the definitions): [vfile_fits] / [vfile_fits_old] (values fit their
+    fields), the image part is the frames in save()'s loop order, pixels are bytes.  Trusted outside the statement: that
+    [encode_file]/[decode_file] model VTF.save/VTF.read (tie: sites, flag trees, side lists, loop nests, event order,
+    example files, two-way correspondence) and the classification done by the translators. *)
+From SV Require Import Fmt.VtfC15WholeProofs.
+Theorem c15_property : forall cd q canon, c15_generated_objects_ok cd q canon = true ->
+  file_round_trip_73 cd q /\ file_round_trip_pre73 cd q /\ stored_again_unchanged cd
+  /\ lifecycle_statement /\ access_statement /\ mipmap_statement.
+Proof. exact whole_property. Qed.
